@@ -390,5 +390,5 @@ def inconclusive(m, tier):
 TECHNIQUE = "RECUR grammar + typed part comparison + occurrence equality against dateutil.rrule built from the supplied parts (R9)"
 LEVEL_TEXT = ("Each generated rule is encoded by the real vRecur, checked against an independent RECUR grammar (FREQ first), decoded and compared part by part "
               "with the supplied typed values and order, re-encoded to the same text, and expanded with dateutil: the first 50 occurrences from the text must "
-              "equal those of an rrule built directly from the supplied parts. Boundary values of every part are swept exhaustively, combinations are sampled.")
+              "equal those of an rrule built directly from the supplied parts. Boundary values of every part are swept exhaustively, combinations are sampled. Rules are also put to use (event RRULE, VTIMEZONE observance converted by both providers) and must encode to the same text afterwards.")
 LEVEL_NOTE = "trusts vmon/refs/values.py:recur_problems and dateutil.rrule; RFC 7529 parts and expensive sub-daily/filter combinations are round-trip only"
